@@ -9,7 +9,7 @@ with tempfile.TemporaryDirectory() as td:
     xml = os.path.join(td, "r.xml")
     env = dict(os.environ, PYTHONPATH=repo)
     subprocess.run(["/venv/bin/python", "-m", "pytest", "-q", "-p", "no:cacheprovider", "--timeout=900",
-                    "--continue-on-collection-errors", "-n", "12", "--junitxml=" + xml],
+                    "--continue-on-collection-errors", "-n", os.environ.get("BASELINE_JOBS", "12"), "--junitxml=" + xml],
                    cwd=repo, env=env, stdout=subprocess.DEVNULL, stderr=subprocess.DEVNULL)
     passed = set()
     for tc in ET.parse(xml).getroot().iter("testcase"):
